@@ -68,3 +68,9 @@ char *strstr(const char *h, const char *n) {
     if (h[i + j] == 0) return (char*)0;
   }
 }
+char *strchr(const char *s, int c) {
+  for (size_t i = 0; ; i++) {
+    if (s[i] == (char)c) return (char*)s + i;
+    if (s[i] == 0) return (char*)0;
+  }
+}
